@@ -79,9 +79,10 @@ class CoreDomain(DeferredDomain):
         return super().call(interp, call, st, fr)
 
 
-def check_run_core(ctx):
+def run_core_results(ctx, every_unhandled_has_debug_info=False):
+    """AsynchronousDeferredRunTest._run_core run for every combination of its problem sources -> (function, results).
+    (Shared with C05, which reads what is attached to the case on the way.)"""
     cls, core = _method(ctx, ADRT, "_run_core")
-    Q = f"{TWRUNTEST}:{ADRT}"
 
     def oracle(n, pos, kw):
         if n == "errobs.flush_logged_errors":
@@ -89,7 +90,7 @@ def check_run_core(ctx):
         if n == "spinner.clear_junk":
             return [("val", ("tuple",), "none"), ("val", ("tuple", J1), "some")]
         if n.endswith("._getDebugTracebacks"):
-            return [("val", NONE if n.startswith("dbg1") else ("const", "debug traceback"))]
+            return [("val", NONE if n.startswith("dbg1") and not every_unhandled_has_debug_info else ("const", "debug traceback of " + n.split(".")[0]))]
         if n == "logfix.getDetails":
             return [("val", ("wobj", "details"))]
         if n == "details.items":
@@ -102,7 +103,12 @@ def check_run_core(ctx):
                      results={"self._make_spinner": [SPINNER], "self._get_log_fixture": [LOGFIX], "_ErrorObserver": [ERROBS],
                               "text_content": [("sym", "text")], "self._got_user_failure": [SENTINEL], "self._got_user_exception": [SENTINEL], "self._log_user_exception": [NONE]},
                      track=lambda d: d in RECORDERS, oracle=oracle, ctors={"UncleanReactorError", "TimeoutError"}, log_cap=60)
-    res = effects.run(ctx, dom, core, cls, {}, state=State(), depth=4)
+    return core, effects.run(ctx, dom, core, cls, {}, state=State(), depth=4)
+
+
+def check_run_core(ctx):
+    core, res = run_core_results(ctx)
+    Q = f"{TWRUNTEST}:{ADRT}"
     combos = {}
     for r in res:
         s = r.state
